@@ -3,7 +3,8 @@
 
   The cryptographic interface of the model is instantiated with TABLES sent by the harness (measured on the real
   SHA3-256 / signature check): `h <in> <out>` and `v <msg> <sig> <0|1>`.  A value that was not sent reads as
-  hash = empty, signature invalid, which shows up as a disagreement.
+  hash = empty and signature VALID (fail-loud: the code rejects what it cannot verify, so a forgotten registration
+  cannot agree silently).
 
     key <genesis> <siglen>                      forget everything, set genesis hash and signature length
     h <in> <out> | v <msg> <sig> <0|1>          extend the tables
@@ -16,6 +17,9 @@
     missing -> <hex>,...                        ser -> <hex>        serupto <name> -> <hex>
     unser <hex>        -> true|false|error <state>
     recv <name> <content> -> true|false <content|none>     (Token.receive_content on the named token)
+    fromdb <name> <prev> <sig> <chash> <content|none> -> <content|none>    (Token.from_database_tuple; registers <name>)
+    todb <name> -> <prev> <sig> <chash> <content|none>                     (to_database_tuple)
+    create <name> <prevname> <content> <sig> -> <prev> <chash> <content>   (Token.create; registers <name>)
 
   several trees of different keys (the tokens registered with `tok` are shared by all of them):
     vk <key> <msg> <sig> <0|1>                  keyed signature table
@@ -40,13 +44,13 @@ structure St where
 
 def St.crypto (s : St) : Crypto :=
   { hash := fun x => ((s.hashTab.find? (fun e => e.1 == x)).map (·.2)).getD []
-    vfy := fun m sg => ((s.vfyTab.find? (fun e => e.1 == m && e.2.1 == sg)).map (·.2.2)).getD false
+    vfy := fun m sg => ((s.vfyTab.find? (fun e => e.1 == m && e.2.1 == sg)).map (·.2.2)).getD true
     sigLen := s.sigLen }
 
 def St.keyed (s : St) : Keyed :=
   { hash := s.crypto.hash
     vfyK := fun k m sg =>
-      ((s.vkTab.find? (fun e => e.1 == k && e.2.1 == m && e.2.2.1 == sg)).map (·.2.2.2)).getD false
+      ((s.vkTab.find? (fun e => e.1 == k && e.2.1 == m && e.2.2.1 == sg)).map (·.2.2.2)).getD true
     sigLenK := fun _ => s.sigLen }
 
 def id8 (b : Bytes) : String := toHex (b.take 8)
@@ -151,6 +155,25 @@ def step (s : St) (toks : List String) : St × String :=
         | some false => "false"
       (setV vn { v with tree := r.1 }, flag ++ " " ++ showState (K.at v.key) r.1)
     | _, _ => bad
+  | ["fromdb", n, p, sg, c, ct] =>
+    match ofHex? p, ofHex? sg, ofHex? c, content? ct with
+    | some p, some sg, some c, some ct =>
+      let t := Token.ofDatabaseTuple C p sg c ct
+      ({ s with toks := (n, t) :: s.toks.filter (fun e => e.1 != n) }, showContent t.content)
+    | _, _, _, _ => bad
+  | ["todb", n] =>
+    match find n with
+    | some t =>
+      let d := t.toDatabaseTuple
+      (s, toHex d.1 ++ " " ++ toHex d.2.1 ++ " " ++ toHex d.2.2.1 ++ " " ++ showContent d.2.2.2)
+    | none => bad
+  | ["create", n, pn, ct, sg] =>
+    match find pn, ofHex? ct, ofHex? sg with
+    | some pt, some ct, some sg =>
+      let t := Token.create C pt ct sg
+      ({ s with toks := (n, t) :: s.toks.filter (fun e => e.1 != n) },
+        toHex t.prev ++ " " ++ toHex t.chash ++ " " ++ showContent t.content)
+    | _, _, _ => bad
   | ["state"] => (s, showState C s.tree)
   | ["verify", n, d] =>
     match find n, depth? d with
